@@ -4,11 +4,12 @@ CONSTANTS
   Foreign = {"f1", "f2"}
   Name = {"n1", "n2", "n3"}
   Ctx = {"c1", "c2"}
-  Fn = {"g1", "g2", "g3"}
+  Fn = {"g1", "g2", "g3", "q1", "p1", "p2", "a1", "l1", "b1", "b2", "m1", "m2"}
+  MethFn = {"m1", "m2"}
   MaxArg = 9
   MaxOps = 1000
   MaxEnv = 1000
-  Ops = {"unique", "sleep", "raise", "create", "cancel", "addcb", "rmcb", "wait", "exec"}
+  Ops = {"unique", "sleep", "raise", "create", "cancel", "addcb", "rmcb", "wait", "exec", "call"}
   Kinds = {"trig", "svc"}
   Decos <- DecosAll
   Flags = {}
